@@ -20,7 +20,7 @@ def run(ctx, wd):
         events = ingress.run_world(ctx, wd, sd, name="c06_%d" % k)
         rep = [e for e in events if e["ev"] == "In" and e["adv"] and mine(e)]
         ctx.coverage["evaluations"] += len(rep)
-        ctx.coverage["distinct_nontrivial"] += len(rep)
+        ctx.coverage["distinct_nontrivial"] += len({(e["tr"], e["cls"]) for e in rep})
         ctx.coverage["replayed_units"] = ctx.coverage.get("replayed_units", 0) + len(rep)
         if k == 0 and rep:
             ctx.sample({"kind": "replayed unit as logged", "event": rep[len(rep) // 2]})
